@@ -196,6 +196,14 @@ class SymClient(Client):
             self.hierarchy = hierarchy
         self.depth = depth
         self._pending_exc = set()
+        # every event ever emitted with the state it was emitted in (events inside loop
+        # bodies are widened away from the final states but stay visible here)
+        self.log: List[Tuple[Event, SymState]] = []
+
+    def emit(self, s: SymState, ev: Event) -> SymState:
+        if not any(e == ev and st.trail == s.trail for e, st in self.log):
+            self.log.append((ev, s))
+        return s.add_event(ev)
 
     # ------------------------------------------------------------------ terms
     def term(self, e: Optional[ast.expr], s: SymState, heap_ext: bool = True) -> str:
@@ -273,8 +281,10 @@ class SymClient(Client):
             for a in list(args) + [v for _, v in kwargs]:
                 if is_token(a):
                     snap.append((a, s.fields_of(a)))
-            s = s.add_event(Event(kind, callee_txt, args, kwargs, tuple(snap), call.lineno, s.conds, self.f.key))
+            s = self.emit(s, Event(kind, callee_txt, args, kwargs, tuple(snap), call.lineno, s.conds, self.f.key))
         r = self._resolve_callee(call.func, s)
+        if isinstance(r, ClassRef):
+            return [self._alloc(call, self.new_token(r.name, call), s)]
         if isinstance(r, FuncRef):
             fi = self.repo.func(r.module, r.qualname)
             if self.inline(fi) and self.depth < 6 and not _is_generator(fi.node):
@@ -304,6 +314,7 @@ class SymClient(Client):
                 env[p] = ast.unparse(d)
         sub = SymClient(self.repo, fi, self.event_of, self.inline, self.hierarchy, self.raises_of,
                         self.depth + 1, self.branch_hook, self.store_event)
+        sub.log = self.log
         init = SymState(frozenset(env.items()), s.heap, s.conds, s.trail)
         o = sub.run(init)
         outs = []
@@ -322,6 +333,22 @@ class SymClient(Client):
             nxt = []
             for st in states:
                 nxt.extend(self._call(call, st))
+            states = nxt
+        ys = _yields_in(e)
+        if ys:
+            nxt = []
+            for st in states:
+                for y in ys:
+                    val = y.value
+                    if isinstance(val, ast.Tuple):
+                        args = tuple(self.value_term(x, st) for x in val.elts)
+                    elif val is None:
+                        args = ()
+                    else:
+                        args = (self.value_term(val, st),)
+                    snap = tuple((a, st.fields_of(a)) for a in args if is_token(a))
+                    st = self.emit(st, Event('yield', 'yield', args, (), snap, y.lineno, st.conds, self.f.key))
+                nxt.append(st)
             states = nxt
         return states
 
@@ -380,6 +407,21 @@ class SymClient(Client):
         return [s]
 
     def _alloc(self, value: ast.expr, term: str, s: SymState) -> SymState:
+        """Constructor call: record the arguments as fields ``@<parameter>`` of the new object."""
+        if not (isinstance(value, ast.Call) and is_token(term)):
+            return s
+        r = self._resolve_callee(value.func, s)
+        if not isinstance(r, ClassRef):
+            return s
+        c = self.repo.cls(r.module, r.name)
+        init = c.find_method('__init__')
+        params = init.params[1:] if init is not None else []
+        for i, a in enumerate(value.args):
+            name = params[i] if i < len(params) else 'arg%d' % i
+            s = s.set_field(term, '@' + name, self.value_term(a, s) if not isinstance(a, ast.Starred) else self.term(a.value, s))
+        for kw in value.keywords:
+            if kw.arg:
+                s = s.set_field(term, '@' + kw.arg, self.value_term(kw.value, s))
         return s
 
     def assign(self, t: ast.expr, value: Optional[ast.expr], term: str, s: SymState) -> SymState:
@@ -398,7 +440,7 @@ class SymClient(Client):
         if isinstance(t, ast.Attribute):
             base = self.term(t.value, s)
             if self.store_event is not None and self.store_event(base + '.' + t.attr):
-                s = s.add_event(Event('store', base + '.' + t.attr, (term,), (), (), t.lineno, s.conds, self.f.key))
+                s = self.emit(s, Event('store', base + '.' + t.attr, (term,), (), (), t.lineno, s.conds, self.f.key))
             if is_token(base):
                 return s.set_field(base, t.attr, term)
             # write through a non-local object: record as event-free store on a pseudo token
@@ -406,6 +448,8 @@ class SymClient(Client):
         if isinstance(t, ast.Subscript):
             base = self.term(t.value, s)
             key = self.term(t.slice, s)
+            if self.store_event is not None and self.store_event(base + '[]'):
+                s = self.emit(s, Event('store', base + '[]', (key, term), (), (), t.lineno, s.conds, self.f.key))
             return s.set_field(('EXT:' + base) if not is_token(base) else base, '[%s]' % key, term)
         if isinstance(t, ast.Starred):
             return self.assign(t.value, None, '*' + term, s)
@@ -494,6 +538,20 @@ class SymClient(Client):
 
     def nested_def(self, st, s):
         return [s]
+
+
+def _yields_in(e: ast.AST) -> List[ast.Yield]:
+    out: List[ast.Yield] = []
+
+    def walk(n):
+        if isinstance(n, (ast.FunctionDef, ast.AsyncFunctionDef, ast.Lambda)):
+            return
+        for ch in ast.iter_child_nodes(n):
+            walk(ch)
+        if isinstance(n, ast.Yield):
+            out.append(n)
+    walk(e)
+    return out
 
 
 def _paren(t: str) -> str:
